@@ -29,7 +29,7 @@ RACE_PROPS = {"C04", "C14", "C19", "C16", "C11"}
 # quick-tier number of runs per property (plain binary); thorough is time based
 QUICK_RUNS = {
     "default": 16000,
-    "C04": 12000, "C05": 12000, "C06": 10000, "C08": 8000, "C15": 12000, "C13": 16000, "C09": 12000, "C10": 12000, "C16": 12000, "C19": 4000,
+    "C04": 12000, "C05": 12000, "C06": 24000, "C08": 8000, "C15": 12000, "C13": 16000, "C09": 12000, "C10": 12000, "C16": 12000, "C19": 4000,
 }
 QUICK_RACE_RUNS = {"default": 3000, "C19": 2000}
 QUICK_DEADLINE_S = 75
@@ -173,13 +173,13 @@ def racebin_tmp(p):
     return p + ".tmp"
 
 
-def spawn_worker(binary, prop, seed, run_start, run_count, deadline_s, tier, outdir, idx, race, digests=False, gomaxprocs=2, scenario=None):
+def spawn_worker(binary, prop, seed, run_start, run_count, deadline_s, tier, outdir, idx, race, digests=False, gomaxprocs=2, scenario=None, nworkers=1):
     out = os.path.join(outdir, "w%s%d.json" % ("r" if race else "p", idx))
     e = env_base()
     e.update({"VERIF_PROP": prop, "VERIF_SEED": str(seed), "VERIF_RUN_START": str(run_start), "VERIF_RUN_COUNT": str(run_count),
               "VERIF_DEADLINE_S": str(deadline_s), "VERIF_TIER": tier, "VERIF_OUT": out,
               "VERIF_REPLAY_DIR": os.path.join(VERIF, "replays"), "VERIF_KNOWN": os.path.join(VERIF, "known_findings.json"),
-              "GOMAXPROCS": str(gomaxprocs), "TMPDIR": outdir})
+              "GOMAXPROCS": str(gomaxprocs), "TMPDIR": outdir, "VERIF_NWORKERS": str(nworkers)})
     if scenario:
         e["VERIF_SCENARIO"] = scenario
     if digests:
@@ -305,7 +305,7 @@ def drive(a, prop, tier, cdir, plain, outdir, need_race, log, t0):
         total = a.runs or QUICK_RUNS.get(prop, QUICK_RUNS["default"])
         per = max(1, total // workers)
         for i in range(workers):
-            ws.append(spawn_worker(plain, prop, a.seed, i * 10000000, per, QUICK_DEADLINE_S, tier, outdir, i, False, digests=(i == 0), scenario=a.scenario))
+            ws.append(spawn_worker(plain, prop, a.seed, i * 10000000, per, QUICK_DEADLINE_S, tier, outdir, i, False, digests=(i == 0), scenario=a.scenario, nworkers=workers))
         if need_race:
             rtotal = QUICK_RACE_RUNS.get(prop, QUICK_RACE_RUNS["default"])
             rw = max(2, workers // 2)
@@ -315,10 +315,11 @@ def drive(a, prop, tier, cdir, plain, outdir, need_race, log, t0):
         budget = a.budget
         nplain = workers if not need_race else max(2, workers // 2)
         for i in range(nplain):
-            ws.append(spawn_worker(plain, prop, a.seed, i * 10000000, 10 ** 9, budget, tier, outdir, i, False, scenario=a.scenario))
+            ws.append(spawn_worker(plain, prop, a.seed, i * 10000000, 10 ** 9, budget, tier, outdir, i, False, scenario=a.scenario, nworkers=nplain))
         if need_race:
             for i in range(workers - nplain):
                 ws.append(spawn_worker(racebin(cdir), prop, a.seed, i * 10000000, 10 ** 9, budget, tier, outdir, 100 + i, True, scenario=a.scenario))
+    nw_plain = workers if tier == "quick" else (workers if not need_race else max(2, workers // 2))
     summaries = wait_workers(ws)
 
     infra_msgs = []
@@ -332,13 +333,13 @@ def drive(a, prop, tier, cdir, plain, outdir, need_race, log, t0):
     ref = next((s for s in summaries if s.get("digests")), None)
     sample_n = 24 if tier == "quick" else 48
     if ref is None and tier == "thorough":
-        w = spawn_worker(plain, prop, a.seed, 0, sample_n, 120, tier, outdir, 900, False, digests=True, scenario=a.scenario)
+        w = spawn_worker(plain, prop, a.seed, 0, sample_n, 120, tier, outdir, 900, False, digests=True, scenario=a.scenario, nworkers=nw_plain)
         ref = wait_workers([w])[0]
     if ref is not None and not ref.get("violations"):
         n = min(sample_n, ref["runs"])
         extra = []
         for j, gmp in enumerate((1, 16) if tier == "thorough" else (1,)):
-            extra.append(spawn_worker(plain, prop, a.seed, 0, n, 120, tier, outdir, 950 + j, False, digests=True, gomaxprocs=gmp, scenario=a.scenario))
+            extra.append(spawn_worker(plain, prop, a.seed, 0, n, 120, tier, outdir, 950 + j, False, digests=True, gomaxprocs=gmp, scenario=a.scenario, nworkers=nw_plain))
         for s in wait_workers(extra):
             for k, v in s.get("digests", {}).items():
                 if k in ref["digests"] and v != "unstable" and ref["digests"][k] != "unstable":
